@@ -329,43 +329,51 @@ Qed.
 Lemma dom_nested_ext ct rec st nm len1 :
   RecOK ct rec -> RecExt ct rec -> Inv ct st -> Collected st ->
   Ext st (fst (dom_nested rec st nm len1)) /\
-  (forall v, snd (dom_nested rec st nm len1) = Ok v -> Collected (fst (dom_nested rec st nm len1))).
+  (forall v, snd (dom_nested rec st nm len1) = Ok v ->
+     Collected (fst (dom_nested rec st nm len1)) /\ Junk st (fst (dom_nested rec st nm len1))).
 Proof.
   intros HR HE I C. unfold dom_nested.
-  assert (Base : Ext st st /\ (forall v : option Z, Ok len1 = Ok v -> Collected st))
-    by (split; [apply ext_refl | intros; exact C]).
+  assert (Base : Ext st st /\ (forall v : option Z, Ok len1 = Ok v -> Collected st /\ Junk st st))
+    by (split; [apply ext_refl | intros; split; [exact C | apply junk_refl]]).
   assert (Call1 : forall s1 r, rec st (cname_of nm) None = (s1, r) ->
-            Inv ct s1 /\ Ext st s1 /\ Ext st (collect s1) /\ Inv ct (collect s1) /\ Collected (collect s1)).
+            Inv ct s1 /\ Ext st s1 /\ Junk st (collect s1) /\ Inv ct (collect s1) /\ Collected (collect s1)).
   { intros s1 r E1. pose proof (HR st (cname_of nm) None I) as [I1 _]. pose proof (HE st (cname_of nm) None I C) as X1.
-    rewrite E1 in I1, X1. cbn in I1, X1. split; [exact I1 | split; [exact X1|]]. apply (collect_step ct st s1); auto. }
+    rewrite E1 in I1, X1. cbn in I1, X1. split; [exact I1 | split; [exact X1|]].
+    destruct (collect_step ct st s1 I C I1 X1) as [_ [A B]]. split; [eapply collect_ext; eauto | auto]. }
+  assert (OKc : forall s (v : option Z), Junk st s -> Collected s ->
+                 Ext st s /\ (forall v', @Ok (option Z) v = Ok v' -> Collected s /\ Junk st s))
+    by (intros s v J Cs; split; [apply junk_ext; exact J | intros; auto]).
+  assert (ERRc : forall s k, Ext st s -> Ext st s /\ (forall v', @Err (option Z) k = Ok v' -> Collected s /\ Junk st s))
+    by (intros s k X; split; [exact X | intros; discriminate]).
   destruct len1 as [l|], (starred nm).
   - destruct (Z.eqb l 0); [exact Base|].
-    destruct (rec st (cname_of nm) None) as [s1 r] eqn:E1. destruct (Call1 s1 r eq_refl) as [I1 [X1 [X1c [I1c C1c]]]].
+    destruct (rec st (cname_of nm) None) as [s1 r] eqn:E1. destruct (Call1 s1 r eq_refl) as [I1 [X1 [J1c [I1c C1c]]]].
     destruct r as [o b|k e].
     + destruct (obj_len (heap s1) o); cbn [fst snd].
-      * destruct (Z.eqb a l); split; auto; intros; try discriminate; exact C1c.
-      * split; [exact X1c | intros; discriminate].
-    + destruct (is_singleton_err k); cbn [fst snd]; split; auto; intros; try discriminate; exact C1c.
+      * destruct (Z.eqb a l); [apply OKc; auto | apply ERRc; apply junk_ext; exact J1c].
+      * apply ERRc. apply junk_ext. exact J1c.
+    + destruct (is_singleton_err k); cbn [fst snd]; [apply OKc; auto | apply ERRc; exact X1].
   - destruct (Z.eqb l 0); [exact Base|].
-    destruct (rec st (cname_of nm) None) as [s1 r] eqn:E1. destruct (Call1 s1 r eq_refl) as [I1 [X1 [X1c [I1c C1c]]]].
+    destruct (rec st (cname_of nm) None) as [s1 r] eqn:E1. destruct (Call1 s1 r eq_refl) as [I1 [X1 [J1c [I1c C1c]]]].
     destruct r as [o b|k e].
-    + destruct (obj_len (heap s1) o); cbn [fst snd]; [|split; [exact X1c | intros; discriminate]].
+    + destruct (obj_len (heap s1) o); cbn [fst snd]; [|apply ERRc; apply junk_ext; exact J1c].
       destruct (rec (collect s1) (cname_of nm) (Some l)) as [s2 r2] eqn:E2.
       pose proof (HR (collect s1) (cname_of nm) (Some l) I1c) as [I2 _].
       pose proof (HE (collect s1) (cname_of nm) (Some l) I1c C1c) as X2.
       rewrite E2 in I2, X2. cbn in I2, X2.
-      assert (X2' : Ext st s2) by (eapply ext_trans; eauto).
+      assert (X2' : Ext st s2) by (eapply ext_trans; [apply junk_ext; exact J1c | exact X2]).
       destruct (collect_step ct st s2 I C I2 X2') as [X2c [I2c C2c]].
+      assert (J2c : Junk st (collect s2)) by (eapply collect_ext; eauto).
       destruct r2 as [o2 b2|k2 e2]; cbn [fst snd].
-      * split; [exact X2c | intros; exact C2c].
-      * destruct (is_singleton_err k2); cbn [fst snd]; [|split; [exact X2' | intros; discriminate]].
-        split; [exact X2c | intros; exact C2c].
-    + destruct (is_singleton_err k); cbn [fst snd]; split; auto; intros; try discriminate; exact C1c.
-  - destruct (rec st (cname_of nm) None) as [s1 r] eqn:E1. destruct (Call1 s1 r eq_refl) as [I1 [X1 [X1c [I1c C1c]]]].
+      * apply OKc; auto.
+      * destruct (is_singleton_err k2); cbn [fst snd]; [|apply ERRc; exact X2'].
+        destruct (Z.eqb a l); [apply OKc; auto | apply ERRc; exact X2c].
+    + destruct (is_singleton_err k); cbn [fst snd]; [apply OKc; auto | apply ERRc; exact X1].
+  - destruct (rec st (cname_of nm) None) as [s1 r] eqn:E1. destruct (Call1 s1 r eq_refl) as [I1 [X1 [J1c [I1c C1c]]]].
     destruct r as [o b|k e].
-    + destruct (obj_len (heap s1) o); cbn [fst snd]; split; auto; intros; try discriminate; exact C1c.
-    + destruct (is_singleton_err k); cbn [fst snd]; split; auto; intros; try discriminate; exact C1c.
-  - split; [apply ext_refl | intros; exact C].
+    + destruct (obj_len (heap s1) o); cbn [fst snd]; [apply OKc; auto | apply ERRc; apply junk_ext; exact J1c].
+    + destruct (is_singleton_err k); cbn [fst snd]; [apply OKc; auto | apply ERRc; exact X1].
+  - split; [apply ext_refl | intros; split; [exact C | apply junk_refl]].
 Qed.
 
 Lemma ext_dom_finish ct c st auto nm len2 :
@@ -389,7 +397,7 @@ Proof.
   pose proof (dom_nested_ext ct rec st nm len1 HR HE I C) as [X1 C1].
   destruct (dom_nested rec st nm len1) as [st1 rl]. cbn [fst snd] in *.
   destruct rl as [len2|k]; [|exact X1].
-  eapply ext_trans; [exact X1|]. apply ext_dom_finish; [exact I1 | eapply C1; reflexivity].
+  eapply ext_trans; [exact X1|]. apply ext_dom_finish; [exact I1 | apply (C1 len2 eq_refl)].
 Qed.
 
 Theorem ext_dom_call fuel ct c st name len prefix dtype :
@@ -418,6 +426,7 @@ Proof.
   - destruct (resolve_name ct st c ci name prefix) as [nm|k]; [|apply ext_refl].
     destruct sst as [ss|]; [|apply ext_refl].
     destruct (negb (Nat.eqb (length es) (length ss))); [apply ext_refl|].
+    destruct (Nat.eqb (length (make_strand_table_list sPlus (map fst es))) 0); [apply ext_refl|].
     destruct (rot_loop _ 0 (cs_canon (cget st c)) (map fst es) ss []) as [[ex cdict]|k] eqn:ER; [|apply ext_refl].
     apply rot_loop_fresh in ER; [|intros k []]. destruct ER as [F1 F2].
     match goal with |- Ext _ (fst (match ?x with _ => _ end)) => destruct x as [[cn e]|k] eqn:EC end; [|apply ext_refl].
